@@ -170,7 +170,8 @@ impl C20 {
 
     fn alphabet_case(&self, ctx: &mut Ctx, rng: &mut Rng) {
         let gen_set = |rng: &mut Rng| -> BTreeSet<u8> {
-            match rng.below(6) {
+            match rng.below(7) {
+                6 => BTreeSet::new(), // the empty alphabet: it accepts exactly the empty text
                 0 => [rng.below(256) as u8].into_iter().collect(),
                 1 => (0..=255u8).collect(),
                 2 => [0u8, 255].into_iter().collect(),
@@ -208,7 +209,13 @@ impl C20 {
         // is_word
         for _ in 0..6 {
             let n = rng.range(0, 30);
-            let t: Vec<u8> = if rng.chance(1, 2) { rng.bytes_over(&va, n) } else { (0..n).map(|_| if rng.chance(1, 8) { rng.below(256) as u8 } else { *rng.pick(&va) }).collect() };
+            let t: Vec<u8> = if va.is_empty() {
+                (0..n % 3).map(|_| rng.below(256) as u8).collect()
+            } else if rng.chance(1, 2) {
+                rng.bytes_over(&va, n)
+            } else {
+                (0..n).map(|_| if rng.chance(1, 8) { rng.below(256) as u8 } else { *rng.pick(&va) }).collect()
+            };
             let exp = t.iter().all(|c| sa.contains(c));
             let got = a.is_word(&t);
             ctx.eval(1);
@@ -224,7 +231,7 @@ impl C20 {
         if !ok {
             ctx.violation("rank_transform:not-order-preserving-bijection", desc(format!("ranks of the sorted symbols: {:?}", &ranks[..ranks.len().min(40)])));
         }
-        let t = rng.bytes_over(&va, rng.clone().range(0, 40));
+        let t = if va.is_empty() { vec![] } else { rng.bytes_over(&va, rng.clone().range(0, 40)) };
         let tr = rt.transform(&t);
         let exp: Vec<u8> = t.iter().map(|c| va.iter().position(|x| x == c).unwrap() as u8).collect();
         if tr != exp {
